@@ -22,12 +22,46 @@ RULE = (
     "Spec.C10.holds (recognised; identifier left-justified in its columns / first token; exactly one line, or "
     "identifier width + field widths bytes; data read back canonical; every read consumes exactly what the write "
     "produced, so the i-th tell() is the i-th partial sum) and compared with the model. non-trivial = at least two "
-    "registers in the stream; distinct by full case."
+    "registers in the stream; distinct by full case. In about half of the cases some of the register OBJECTS have an "
+    "earlier life (items' `pre` for the object that writes, `pre_read` for the object that reads back): before the "
+    "observed operation the very same object was written to and/or read from throw-away streams of any storage, the "
+    "observed storage or another one, results discarded; the observed write/read is judged exactly as for a fresh "
+    "object, because the property speaks of any register, whatever it was used for before."
 )
 ASSUMPTIONS = c01.ASSUMPTIONS + ["binary layouts are contiguous after the identifier (the property's domain)", "identifiers are ASCII literal text without surrounding blanks"]
 TRUSTED = []
-NOT_THEOREMS = ['positional text storage is a theorem for every stream (Props.C10.text_positional under the read half of the per-field law and the absence of line breaks in the renderings; Props.C10.text_positional_dom discharges both from the decidable domain of C01 for integers, literals, dates, missing values and floats — F notation any finite double, E notation zero or at least 10^(decimals-322) in magnitude (every normal double, most subnormal ones); other floats per case)', 'binary storage is a theorem for every stream (Props.C10.binary under the per-field binary law; Props.C10.binary_nodate / binary_all discharge it for integers, ASCII literals, floats, dates and missing values)', 'delimited text storage is a theorem as well (Props.C10.text_delimited / text_mixed under the per-token law; Props.C10.text_delimited_dom discharges it from the decidable domain of C01 for every kind)']
+NOT_THEOREMS = ['positional text storage is a theorem for every stream (Props.C10.text_positional under the read half of the per-field law and the absence of line breaks in the renderings; Props.C10.text_positional_dom discharges both from the decidable domain of C01 for integers, literals, dates, missing values and floats — F notation any finite double, E notation any finite double in normal form (Props.C01.FloatFB, floatFB_all))', 'binary storage is a theorem for every stream (Props.C10.binary under the per-field binary law; Props.C10.binary_nodate / binary_all discharge it for integers, ASCII literals, floats, dates and missing values)', 'delimited text storage is a theorem as well (Props.C10.text_delimited / text_mixed under the per-token law; Props.C10.text_delimited_dom discharges it from the decidable domain of C01 for every kind)']
 EXHAUSTIVE = {"quick": False, "thorough": False}
+
+
+def earlier_life(r, ops):
+    """what the object was used for before the observed operation: written to / read from throw-away
+    streams of the storages named in `ops` (a record converted from one format to another, a record
+    written twice ...). Nothing of it is observed and a use that fails is simply over: the property
+    is about the operation that follows, on an object that is a register like any other."""
+    for op in ops or []:
+        s = op["storage"]
+        try:
+            if op["op"] == "w":
+                r.write(BytesIO() if s == "BINARY" else StringIO(), s)
+            else:
+                keep = r.data
+                try:
+                    r.read(BytesIO(bytes(4096)) if s == "BINARY" else StringIO("\n"), s)
+                finally:
+                    r.data = keep
+        except Exception:
+            pass
+
+
+def history_text(case):
+    out = []
+    for i, it in enumerate(case["items"]):
+        for key, who in (("pre", "writes"), ("pre_read", "reads back")):
+            if it.get(key):
+                ops = ", ".join(("written to" if o["op"] == "w" else "read from") + f" a throw-away {o['storage'] or 'default'!s} stream" for o in it[key])
+                out.append(f"the object that {who} register {i} was first {ops}")
+    return (" [earlier uses of the objects: " + "; ".join(out) + "]") if out else ""
 
 
 def run_impl(case):
@@ -43,13 +77,19 @@ def run_impl(case):
                 cls = classes[it["def"]]
                 before = buf.tell()
                 r = cls(data=[codec.dec_val(v, case.get("np_scalars", False)) for v in it["data"]])
+                earlier_life(r, it.get("pre"))
                 r.write(buf, st)
                 after = buf.tell()
                 w = buf.getvalue()[before:after]
                 out.append({"written": codec.enc_data(w), "tell_write": after, "matched": bool(cls.matches(w, st))})
             buf.seek(0)
             for it, o in zip(case["items"], out):
-                r = classes[it["def"]]()
+                if it.get("pre_read"):
+                    # an object that already held a record (this one's data) and was used with it
+                    r = classes[it["def"]](data=[codec.dec_val(v, case.get("np_scalars", False)) for v in it["data"]])
+                    earlier_life(r, it["pre_read"])
+                else:
+                    r = classes[it["def"]]()
                 r.read(buf, st)
                 o["read_data"] = [codec.enc_val(v) for v in r.data]
                 o["tell_read"] = buf.tell()
@@ -119,11 +159,11 @@ def judge(case, obs, resp):
     if not resp["model_holds"]:
         return {"status": "error", "why": f"the MODEL's run violates Spec.C10.holds: {show(resp.get('model'))}"}
     if "exc" in obs:
-        return {"status": "oracle", "why": f"register write/read raised {obs['exc']}: {obs.get('msg')}"}
+        return {"status": "oracle", "why": f"register write/read raised {obs['exc']}: {obs.get('msg')}{history_text(case)}"}
     if not resp["holds"]:
-        return {"status": "oracle", "why": f"got {show(obs['regs'])}; required {show(resp.get('model'))}"}
+        return {"status": "oracle", "why": f"got {show(obs['regs'])}; required {show(resp.get('model'))}{history_text(case)}"}
     if not resp["agree"]:
-        return {"status": "corr", "why": f"model {show(resp.get('model'))} vs implementation {show(obs['regs'])}"}
+        return {"status": "corr", "why": f"model {show(resp.get('model'))} vs implementation {show(obs['regs'])}{history_text(case)}"}
     fr = obs.get("file_route")
     if fr and "got" in fr and fr["got"] != fr["expected"]:
         return {"status": "oracle", "why": f"re-read through RegisterFile.read(content, linesize{'=' if case['file_route']['kw'] else ' '}{case['file_route']['linesize']}): registers (class index, data) {fr['got']} ; the registers written (and read one by one) {fr['expected']}"}
@@ -155,6 +195,12 @@ def features(case, obs):
         f.append("zero_width_identifier")
     if any(d["digits"] > len(d["ident"]) for d in case["defs"]):
         f.append("window_wider_than_identifier")
+    ops = [o for it in case["items"] for key in ("pre", "pre_read") for o in (it.get(key) or [])]
+    if ops:
+        fam = lambda x: "binary" if x == "BINARY" else "text"
+        f.append("objects_with_earlier_uses:" + ("other_storage" if any(fam(o["storage"]) != fam(case["storage"]) for o in ops) else "same_storage"))
+    else:
+        f.append("objects_fresh")
     return f
 
 
@@ -264,8 +310,15 @@ def random_case(rng):
             fd0 = defs[i]["fields"][0]
             data[0] = {"i": 7} if fd0["k"] == "int" else ({"s": codec.enc_str("q")} if fd0["k"] == "lit" else (codec.enc_val(1.0) if fd0["k"] == "flt" else data[0]))
         items.append({"def": i, "data": data})
-    return {"storage": {"pos": rng.choice(["", "TEXT"]), "delim": "TEXT", "bin": "BINARY"}[mode], "defs": defs, "items": items, "np_scalars": rng.random() < 0.2,
+    case = {"storage": {"pos": rng.choice(["", "TEXT"]), "delim": "TEXT", "bin": "BINARY"}[mode], "defs": defs, "items": items, "np_scalars": rng.random() < 0.2,
             "file_route": {"linesize": max([d["digits"] for d in defs] + [rng.choice([1, 4, 16, 64, 300])]), "kw": rng.random() < 0.5} if rng.random() < 0.35 else None}
+    if rng.random() < 0.5:
+        # objects with an earlier life: used before with this storage or another one
+        for it in items:
+            for key in ("pre", "pre_read"):
+                if rng.random() < 0.5:
+                    it[key] = [{"op": rng.choice("wwr"), "storage": rng.choice(["", "TEXT", "BINARY", "BINARY", case["storage"]])} for _ in range(rng.choice([1, 1, 2]))]
+    return case
 
 
 def corpus_cases():
@@ -298,6 +351,15 @@ def cases_of(chunk):
 
 def shrinks(case):
     its = case["items"]
+    if any(it.get("pre") or it.get("pre_read") for it in its):
+        yield {**case, "items": [{k: v for k, v in it.items() if k not in ("pre", "pre_read")} for it in its]}
+        for i, it in enumerate(its):
+            for key in ("pre", "pre_read"):
+                if it.get(key):
+                    yield {**case, "items": its[:i] + [{k: v for k, v in it.items() if k != key}] + its[i + 1 :]}
+                    if len(it[key]) > 1:
+                        for k in range(len(it[key])):
+                            yield {**case, "items": its[:i] + [dict(it, **{key: it[key][:k] + it[key][k + 1 :]})] + its[i + 1 :]}
     for i in range(len(its)):
         yield {**case, "items": its[:i] + its[i + 1 :]}
     for i, d in enumerate(case["defs"]):
